@@ -27,7 +27,7 @@ VALS = {'nVersion': (1, 2), 'nLockTime': (0, 0x80000000), 'seq': (0xffffffff, 5)
         'nValue': (10, 20), 'spk': (b'\x51', b'\x52\x53')}
 
 EDITS = ['nVersion', 'nLockTime', 'vin0.seq', 'vin0.scriptSig', 'vin0.prevout.n', 'vin0.prevout.hash', 'vin0.prevout=new', 'vin1=new', 'vin.append', 'vin.pop',
-         'vout0.nValue', 'vout0.spk', 'vout0=new', 'vout.append', 'vout.pop', 'wit=new', 'vin=newlist', 'vout=newlist', 'vin.insert0', 'vout.insert0']
+         'vout0.nValue', 'vout0.spk', 'vout0=new', 'vout.append', 'vout.pop', 'wit=new', 'vin=newlist', 'vout=newlist', 'vin.insert0', 'vout.insert0', 'vin=tuple', 'vout=tuple']
 SNAPS = ['from_tx', 'ctor', 'block', 'txin', 'outpoint', 'txout', 'mfrom_tx', 'mtxin', 'moutpoint', 'mtxout', 'deser', 'ctor_mut']
 
 
@@ -63,7 +63,11 @@ class World:
             if kind == 'mtx':
                 m = self.models[k]
                 for e in EDITS:
-                    if e in ('vin.append', 'vin.pop', 'vin1=new', 'vin=newlist', 'vin.insert0') and m['wit'] is not None:
+                    if e in ('vin.append', 'vin.pop', 'vin1=new', 'vin=newlist', 'vin.insert0', 'vin=tuple') and m['wit'] is not None:
+                        continue
+                    if e in ('vin.append', 'vin.pop', 'vin.insert0', 'vin1=new') and isinstance(self.objs[k].vin, tuple):
+                        continue
+                    if e in ('vout.append', 'vout.pop', 'vout.insert0', 'vout0=new') and isinstance(self.objs[k].vout, tuple):
                         continue
                     if e == 'vin.insert0' and len(m['vin']) >= 3:
                         continue
@@ -89,6 +93,7 @@ class World:
                         ev.append(('copy', k, s))
                 ev.append(('use', k))
             ev.append(('compute', k))
+            ev.append(('compute_hash_first', k))
         return ev
 
     def apply(self, ev):
@@ -155,6 +160,11 @@ class World:
             elif e == 'vout=newlist':
                 m['vout'] = [dict(x, value=toggle('nValue', x['value']) if x['value'] in VALS['nValue'] else 10) for x in m['vout']]
                 o.vout = [CMutableTxOut(x['value'], CScript(x['script'])) for x in m['vout']]
+            elif e == 'vin=tuple':
+                # the list is replaced by a *tuple* of new mutable inputs (same values): still a mutable transaction
+                o.vin = tuple(CMutableTxIn(CMutableOutPoint(i['hash'], i['n']), CScript(i['script']), i['seq']) for i in m['vin'])
+            elif e == 'vout=tuple':
+                o.vout = tuple(CMutableTxOut(x['value'], CScript(x['script'])) for x in m['vout'])
             elif e == 'vin.insert0':
                 new = {'hash': H1, 'n': 3, 'script': b'', 'seq': 0xffffffff}
                 m['vin'].insert(0, new)
@@ -208,6 +218,12 @@ class World:
             self.kinds.append(kind)
             self.models.append(mc)
             self.computed.append(False)
+            return
+        if ev[0] == 'compute_hash_first':
+            o = self.objs[ev[1]]
+            hash(o)
+            o.serialize(dict(include_witness=False)) if self.kinds[ev[1]] in ('mtx', 'tx', 'block') else None
+            o.GetHash()
             return
         if ev[0] == 'compute':
             o = self.objs[ev[1]]
@@ -346,11 +362,13 @@ class World:
                 row.append(num(o.vtx))
                 txs = list(o.vtx)
             for t in txs:
-                row += [num(t), num(t.vin), num(t.vout), num(t.wit)]
+                # identities and concrete types of the containers and sub-objects (a tuple of mutable inputs is not the
+                # same state as a list of them, nor as a tuple of immutable ones)
+                row += [num(t), num(t.vin), num(t.vout), num(t.wit), type(t).__name__, type(t.vin).__name__, type(t.vout).__name__]
                 for i in t.vin:
-                    row += [num(i), num(i.prevout)]
+                    row += [num(i), num(i.prevout), type(i).__name__, type(i.prevout).__name__]
                 for x in t.vout:
-                    row.append(num(x))
+                    row += [num(x), type(x).__name__]
             if kind in ('txin', 'mtxin'):
                 row.append(num(o.prevout))
             alias.append(tuple(row))
